@@ -49,8 +49,26 @@ func normOfWire(m *gen.WireMsg) string {
 	return string(b)
 }
 
-// drawFrame draws one frame; genuine collects correctly signed events sent so far.
+// genuine collects correctly signed events sent so far.
+// maxFrame keeps generated frames inside the relay's default MaxMessageLength
+// (100 000 bytes): a longer frame is answered by closing the connection with
+// StatusMessageTooBig, which is the documented size limit and outside C12's domain.
+const maxFrame = 99000
+
+// drawFrame draws one frame of at most maxFrame bytes (escaped spellings of a
+// re-used large event can multiply its size; such a draw is repeated).
 func drawFrame(t *rapid.T, label string, genuine *[]*mocrelay.Event) frame {
+	for attempt := 0; ; attempt++ {
+		n := len(*genuine)
+		f := drawFrame1(t, fmt.Sprintf("%s%d.", label, attempt), genuine)
+		if len(f.Text) <= maxFrame {
+			return f
+		}
+		*genuine = (*genuine)[:n]
+	}
+}
+
+func drawFrame1(t *rapid.T, label string, genuine *[]*mocrelay.Event) frame {
 	render := func(doc gen.J) string {
 		return gen.Render(doc, &gen.RenderOpts{T: t, Whitespace: rapid.IntRange(0, 3).Draw(t, label+"ws") == 0, EscapeVar: rapid.IntRange(0, 5).Draw(t, label+"esc") == 0})
 	}
@@ -59,13 +77,25 @@ func drawFrame(t *rapid.T, label string, genuine *[]*mocrelay.Event) frame {
 	}
 	k := rapid.IntRange(0, 21).Draw(t, label+"class")
 	switch {
-	case k == 20: // large valid EVENT (tens of kilobytes, still inside the size limit)
-		e := &mocrelay.Event{Kind: 1, CreatedAt: 1700000000, Tags: []mocrelay.Tag{}, Content: strings.Repeat(rapid.SampledFrom([]string{"x", "é", "<>&"}).Draw(t, label+"unit"), rapid.IntRange(12000, 28000).Draw(t, label+"biglen"))}
-		gen.Sign(e, gen.Keys[rapid.IntRange(0, gen.NKeys-1).Draw(t, label+"key")])
-		*genuine = append(*genuine, e)
-		m := &gen.WireMsg{Label: "EVENT", Event: e}
-		m.Doc = gen.JArr{gen.JStr("EVENT"), gen.WireEventDoc(t, e, label+"doc.")}
-		return frame{Class: "valid:large-EVENT", Text: gen.Render(m.Doc, nil), Valid: true, norm: normOfWire(m)}
+	case k == 20: // large valid EVENT (tens of kilobytes, still inside the relay's default size limit)
+		unit := rapid.SampledFrom([]string{"x", "é", "<>&"}).Draw(t, label+"unit")
+		count := rapid.IntRange(12000, 28000).Draw(t, label+"biglen")
+		key := gen.Keys[rapid.IntRange(0, gen.NKeys-1).Draw(t, label+"key")]
+		for attempt := 0; ; attempt++ {
+			e := &mocrelay.Event{Kind: 1, CreatedAt: 1700000000, Tags: []mocrelay.Tag{}, Content: strings.Repeat(unit, count)}
+			gen.Sign(e, key)
+			m := &gen.WireMsg{Label: "EVENT", Event: e}
+			m.Doc = gen.JArr{gen.JStr("EVENT"), gen.WireEventDoc(t, e, fmt.Sprintf("%sdoc%d.", label, attempt))}
+			text := gen.Render(m.Doc, nil)
+			if len(text) > maxFrame {
+				// escaped spellings can multiply the size; a frame over MaxMessageLength is
+				// legitimately answered by closing the connection, which is not this class
+				count /= 2
+				continue
+			}
+			*genuine = append(*genuine, e)
+			return frame{Class: "valid:large-EVENT", Text: text, Valid: true, norm: normOfWire(m)}
+		}
 	case k == 21: // large invalid message: the rejection may echo it
 		junk := strings.Repeat("ab", rapid.IntRange(17000, 40000).Draw(t, label+"junklen"))
 		return frame{Class: "corrupt:large-invalid", Text: `["REQ","big",{"ids":["` + junk + `"]}]`, subID: "big"}
@@ -84,7 +114,7 @@ func drawFrame(t *rapid.T, label string, genuine *[]*mocrelay.Event) frame {
 		var app []gen.Corruption
 		for _, c := range gen.Corruptions {
 			// JSON null in place of a value is not claimed either way (Go decoders treat it as absent)
-			if c.Applies(m) && !strings.HasSuffix(c.Name, "-null") && !(c.Name == "subid-not-string") {
+			if c.Applies(m) && (!strings.HasSuffix(c.Name, "-null") || strings.HasSuffix(c.Name, "-element-null")) && !(c.Name == "subid-not-string") {
 				app = append(app, c)
 			}
 		}
